@@ -136,6 +136,9 @@ class QueryPlanner:
         def _find_local_names(node, is_table, **kwargs):
             if is_table and getattr(node, 'alias', None) is not None:
                 local_names.add(str(node.alias.parts[-1]).lower())
+            elif is_table and isinstance(node, Identifier):
+                # an unaliased table is referred to by its own name
+                local_names.add(str(node.parts[-1]).lower())
             if getattr(node, 'cte', None):
                 local_names.update(str(cte.name.parts[-1]).lower() for cte in node.cte)
 
